@@ -438,6 +438,10 @@ class TransferFrame:
         else:
             frame.header = PrimaryHeader.unpack(raw_packet=raw_frame)
         header_len = frame.header.len()
+        if header_type != HeaderType.TRUNCATED and (
+            len(raw_frame) < frame.header.frame_len + 1
+        ):
+            raise UslpInvalidRawPacketOrFrameLen
         if frame_type == FrameType.FIXED and (
             frame.header.frame_len + 1 != frame_properties.fixed_len
         ):
